@@ -71,6 +71,9 @@ def roundtrip(s, layout, batch, pair=None):
         return res
     try:
         X = torch.tensor(batch, dtype=torch.float32)
+        if layout == "2d" and len(batch) % 2 == 1:
+            from .core import noncontiguous
+            X = noncontiguous(X)          # odd-sized batches arrive as a non-contiguous strided view of a larger buffer
         if layout == "3d":          # two leading batch dimensions: the symbol axis is still the last one
             X = X.reshape((2, len(batch) // 2, -1) if len(batch) % 2 == 0 else (1, len(batch), -1))
         y = m(X)
